@@ -28,3 +28,34 @@ Definition nh_tr_send_as_modelled (cases : list string) : bool :=
   (nh_str_in "send:sendCh" cases || nh_str_in "plain-send:sendCh" cases) &&
   forallb (fun c => String.eqb c "send:sendCh" || String.eqb c "plain-send:sendCh" || String.eqb c "recv:doneCh") cases.
 Definition nh_today_tr_send_blocking : bool := nh_tr_send_as_modelled nh_tr_send.
+
+(* server/control.go + pkg/msg/handler.go as modelled by EvNewProxy / EvCtlEnd: the NewProxy and CloseProxy handlers are
+   registered as plain (synchronous) handlers, the dispatcher's read loop calls a handler inline, doneCh is closed in the
+   read loop only, and Control.worker waits for the dispatcher's Done before it walks ctl.proxies: hence a registration
+   cannot run for a control whose teardown has started. *)
+Definition nh_ctl_registration_in_read_loop (handlers worker readloop close_done : list string) : bool :=
+  nh_str_in "NewProxy:sync" handlers && nh_str_in "CloseProxy:sync" handlers &&
+  negb (nh_str_in "NewProxy:async" handlers) && negb (nh_str_in "CloseProxy:async" handlers) &&
+  forallb (fun c => String.eqb c "call:handler") readloop && nh_str_in "call:handler" readloop &&
+  forallb (fun f => String.eqb f "readLoop") close_done && nh_str_in "readLoop" close_done &&
+  (fix before (l : list string) : bool :=
+     match l with
+     | [] => false
+     | x :: r => if String.eqb x "wait:dispatcher.Done" then nh_str_in "range:proxies" r
+                 else if String.eqb x "range:proxies" then false else before r
+     end) worker.
+Definition nh_today_ctl_registration_in_read_loop : bool :=
+  nh_ctl_registration_in_read_loop nh_ctl_handlers nh_ctl_worker nh_disp_readloop nh_disp_close_done_in.
+
+(* pkg/nathole/utils.go as modelled by Model/NatHoleSid.v: exactly frame-then-encrypt and decrypt-then-unframe, with the
+   caller's key, and no branch on the key (the empty key takes the same path) *)
+Local Open Scope string_scope.
+Fixpoint nh_strs_eqb (a b : list string) : bool :=
+  match a, b with
+  | [], [] => true
+  | x :: a', y :: b' => String.eqb x y && nh_strs_eqb a' b'
+  | _, _ => false
+  end.
+Definition nh_today_sid_codec_symmetric : bool :=
+  nh_strs_eqb nh_sid_encode ["call:msg.WriteMsg"; "call:crypto.Encode:key"] &&
+  nh_strs_eqb nh_sid_decode ["call:crypto.Decode:key"; "call:msg.ReadMsgInto"].
